@@ -411,6 +411,9 @@ func (l Gpos2_1) encode() []byte {
 	}
 	pairSetOffsets := make([]uint16, pairSetCount)
 	for i, adj := range adjust {
+		if total > 0xFFFF {
+			panic("pair set offset overflow")
+		}
 		pairSetOffsets[i] = uint16(total)
 		total += 2 + 2*len(adj)
 		for _, v := range adj {
